@@ -229,7 +229,7 @@ def make_cases(tier, profile):
     return cases
 
 BOUNDS = dict(universe='3 users, one fully symbolic channel (memberships, all 5 rank flags of every member, i/m/s/t/n, key, 64-bit limit, lists over the mask menu, preconfigured bit), the other channel plain',
-              commands='MODE <channel> with 1-5 mode letters from +-beIovhqalkimtns, sign switches, list queries, the query form',
+              commands='MODE <channel> with 1-5 mode letters from +-beIovhqalkimtns, sign switches, list queries, the query form; list masks in full and in short form (nick, nick@host, nick!user) completing to a stored mask',
               outside='mode strings longer than listed; more than 3 members; unknown letters (rejected by validation before the handler, see C13)')
 
 if __name__ == '__main__':
